@@ -230,6 +230,21 @@ pub fn run(ctx: &mut Ctx) {
             }
         }
     }
+    if families.iter().any(|f| f == "edf") && !exact_only {
+        // EDF core: a rare task with a long relative deadline next to a frequent one with a *shorter* deadline. The worst
+        // case of the rare task is then at an offset A = k * T_o + D_o - D > 0 (a later job of the frequent task whose
+        // absolute deadline meets the analysed job's), which only the deadline-shifted part of the search space reaches
+        for (c1, d1) in [(2u64, 7u64), (2, 9), (3, 7), (3, 9)] {
+            for t2 in [4u64, 5] {
+                for (c2, d2) in [(2u64, 2u64), (2, 4), (3, 3), (3, 4)] {
+                    core.push(vec![
+                        json!({"a": {"k": "sporadic", "T": 14, "J": 0}, "C": c1, "prio": 2, "D": d1, "segs": [1, c1 - 1], "fl": 1, "w": []}),
+                        json!({"a": {"k": "sporadic", "T": t2, "J": 0}, "C": c2, "prio": 1, "D": d2, "segs": [c2], "fl": c2, "w": []}),
+                    ]);
+                }
+            }
+        }
+    }
     let mut sets: Vec<Vec<Value>> = if ctx.arg("--no-core").is_some() { vec![] } else { core };
     for _ in 0..nsys {
         let n = ctx.rng.gen_range(2..=nmax);
